@@ -94,6 +94,140 @@ def len_upper_guard(fn, sig, at_bb):
     return best
 
 
+BAD_BYTES = set(range(0, 0x21)) | {0x7f}
+
+
+def validator_semantics(prog, g):
+    """What must hold whenever is_encodable(DomainPort(host, _)) returns true, decided on values:
+    every way the function can return `true` for a host name is dominated by facts that bound host.len() to 1..=253 and by the
+    outcome of a byte scan (Iterator::any / all over host.bytes()) whose predicate - evaluated for all 256 byte values - rejects
+    every byte in 0x00..=0x20 and 0x7f.  -> [(clause, holds, detail)]"""
+    from ..flow import value_sources, bool_branch as bb_, edge_dominates as ed_
+    from ..bytepred import truth_table, byte_arg_of
+    from .panics import _cmp_facts as facts_, canon as canon_
+    # host length values: results of len() calls on the host
+    lens = [c for c in g.calls if re.search(r"(String|str::<impl str>|slice::<impl \[T\]>|Vec::<T, A>)::len$", c.path or "")]
+    empt = [c for c in g.calls if re.search(r"(String|str::<impl str>|slice::<impl \[T\]>|Vec::<T, A>)::is_empty$", c.path or "")]
+    scans = [c for c in g.calls if re.search(r"iter::traits::iterator::Iterator::(any|all)$", c.path or "")]
+    # accepting points: where the return value can become true
+    accept = []      # (block, extra fact or None)
+    for r in g.returns():
+        for src in value_sources(g, 0, r):
+            if src[0] == "const":
+                continue
+            accept.append(src)
+    # const-true assignments to the return place
+    true_blocks = [b for (b, i, rv) in g.defs.get(0, []) if i != "term" and rv["k"] == "use" and const_int(rv["a"]) == 1]
+    pts = []   # (block at which facts must hold, scan call assumed true/false or None)
+    for b in true_blocks:
+        # `true` for the non-host variants (SocketAddr, Unknown) is not about a host name: skip blocks not reached after reading the host
+        reads_host = any(x.bb in [y for y in g.reachable if g.dominates(y, b)] for x in lens + empt + scans)
+        if reads_host:
+            pts.append((b, None, None))
+    for src in accept:
+        if src[0] == "call" and src[1] in scans:
+            pts.append((src[1].bb, src[1], True))
+        elif src[0] == "not" and len(src) >= 3 and src[1] == "call" and src[2] in scans:
+            pts.append((src[2].bb, src[2], False))
+        elif src[0] == "call" and src[1] in empt:
+            pts.append((src[1].bb, None, None))
+        else:
+            pts.append((None, None, None))
+    if not pts:
+        return [("the validator is recognisable", False, "no accepting path for a host name was found")]
+    lo_ok = hi_ok = by_ok = True
+    lo_why = hi_why = by_why = ""
+    tables = {}
+    for sc in scans:
+        cl = None
+        for n in et.walk(et.build(g, sc.args[1])):
+            if n[0] == "closure":
+                cl = prog.fns.get(g.crate + "::" + n[1])
+            elif n[0] == "fn":
+                cl = prog.fns.get(g.crate + "::" + n[1]) or cl
+        if cl is not None:
+            ba = byte_arg_of(cl)
+            tables[id(sc)] = truth_table(prog, cl, ba) if ba else None
+    for (blk, scan, scan_val) in pts:
+        if blk is None:
+            return [("the validator is recognisable", False, "is_encodable combines its conditions in a way the checker cannot follow")]
+        # --- length facts holding at blk
+        lo = 0
+        hi = None
+        for e in empt:
+            for (sb, tt, ft) in bb_(g, e.dest[0]):
+                if ed_(g, sb, ft, blk):
+                    lo = max(lo, 1)
+        lsyms = set(canon_(g, {"c": [c.dest[0]]}) for c in lens)
+        for (sb, tb, cop, x, y) in facts_(g):
+            cx, cy = canon_(g, x), canon_(g, y)
+            if not ed_(g, sb, tb, blk):
+                continue
+            if cx in lsyms and cy and cy[0] == "c":
+                c_ = cy[1]
+                if cop == "Le":
+                    hi = c_ if hi is None else min(hi, c_)
+                elif cop == "Lt":
+                    hi = c_ - 1 if hi is None else min(hi, c_ - 1)
+                elif cop == "Ge":
+                    lo = max(lo, c_)
+                elif cop == "Gt":
+                    lo = max(lo, c_ + 1)
+                elif cop == "Eq":
+                    lo, hi = max(lo, c_), (c_ if hi is None else min(hi, c_))
+                elif cop == "Ne" and c_ == 0:
+                    lo = max(lo, 1)
+            elif cy in lsyms and cx and cx[0] == "c":
+                c_ = cx[1]
+                if cop == "Ge":
+                    hi = c_ if hi is None else min(hi, c_)
+                elif cop == "Gt":
+                    hi = c_ - 1 if hi is None else min(hi, c_ - 1)
+                elif cop == "Le":
+                    lo = max(lo, c_)
+                elif cop == "Lt":
+                    lo = max(lo, c_ + 1)
+        if lo < 1:
+            lo_ok = False
+            lo_why = "a path returns true with no fact host.len() >= 1"
+        if hi is None or hi > 253:
+            hi_ok = False
+            hi_why = "a path returns true with host.len() bounded by %s" % hi
+        # --- byte facts holding at blk: scans whose outcome is known
+        rejected = set()
+        known = []
+        for sc in scans:
+            is_all = sc.path.endswith("::all")
+            val = None
+            if sc is scan:
+                val = scan_val
+            else:
+                for (sb, tt, ft) in bb_(g, sc.dest[0]):
+                    if ed_(g, sb, tt, blk):
+                        val = True
+                    elif ed_(g, sb, ft, blk):
+                        val = False
+            if val is None:
+                continue
+            tb_ = tables.get(id(sc))
+            if tb_ is None:
+                continue
+            if is_all and val is True:
+                rejected |= set(v for v in range(256) if not tb_[v])
+                known.append("all(p)")
+            elif (not is_all) and val is False:
+                rejected |= set(v for v in range(256) if tb_[v])
+                known.append("!any(p)")
+        miss = sorted(BAD_BYTES - rejected)
+        if miss:
+            by_ok = False
+            by_why = "a path returns true although bytes %s are not excluded (byte scans with a known outcome there: %s)" % (
+                ", ".join("0x%02x" % v for v in miss[:6]) + (" .." if len(miss) > 6 else ""), known or "none")
+    return [("1 <= host.len()", lo_ok, lo_why or "every accepting path has the fact len >= 1"),
+            ("host.len() <= 253", hi_ok, hi_why or "every accepting path has an upper bound <= 253"),
+            ("no byte <= 0x20 and no 0x7f in the host", by_ok, by_why or "predicate truth table (256 values) rejects 0x00..=0x20 and 0x7f on every accepting path")]
+
+
 def run(chk, prog):
     from . import anchors
     # ------------------------------------------------------------------ L1
@@ -175,24 +309,12 @@ def run(chk, prog):
         chk.anchor_missing("V1", "TargetAddress::is_encodable")
     else:
         g = ie[0]
-        consts = set()
-        for h in [g] + prog.children(g):
-            for b in h.reachable:
-                for st in h.stmts(b):
-                    if st["k"] == "assign" and st["rv"]["k"] == "binop":
-                        for o in (st["rv"]["a"], st["rv"]["b"]):
-                            v = const_int(o)
-                            if v is not None:
-                                consts.add((st["rv"]["op"], v))
-        has_len = any(op in ("Le", "Lt", "Gt", "Ge") and 1 <= v <= 254 and v > 0x20 + 1 for op, v in consts)
-        has_ctl = any(v == 0x20 for op, v in consts) or any(op in ("Lt",) and v == 0x21 for op, v in consts)
-        has_del = any(v == 0x7f for op, v in consts)
-        has_empty = any(re.search(r"is_empty$", c.path or "") for c in g.calls)
-        for name, okc in [("length bound <= 253", has_len), ("control/space bytes (<= 0x20)", has_ctl), ("DEL (0x7f)", has_del), ("non-empty", has_empty)]:
-            chk.instance("V1", "%s:%s" % (g.file, g.line), "is_encodable checks " + name, okc)
+        res = validator_semantics(prog, g)
+        for name, okc, detail in res:
+            chk.instance("V1", "%s:%s" % (g.file, g.line), "is_encodable accepts a host only if " + name, okc, detail)
             if not okc:
                 chk.finding("V1", g.key, "validator-clause", name, "%s:%s" % (g.file, g.line),
-                            "TargetAddress::is_encodable no longer checks %s" % name)
+                            "TargetAddress::is_encodable can accept a host although not (%s): %s" % (name, detail))
 
     # ------------------------------------------------------------------ T-addr: tag tables
     def tags_written(fn_pat, const_names):
